@@ -206,14 +206,18 @@ class GlobalContext:
             module_name = ctx_name[ctx_name.find(".") + 1 :]
 
         else:
+            # a submodule file reached by its dotted name lives in its package's directory
+            is_submodule = "/" in module_path
             if self.rel_import_path is not None and self.rel_import_path.startswith("apps/"):
                 ctx_name = f"apps.{module_name}"
                 file_paths.append([ctx_name, f"apps/{module_path}/__init__.py", f"apps/{module_path}"])
-                file_paths.append([ctx_name, f"apps/{module_path}.py", f"apps/{module_path}"])
+                rel_path = os.path.dirname(f"apps/{module_path}") if is_submodule else f"apps/{module_path}"
+                file_paths.append([ctx_name, f"apps/{module_path}.py", rel_path])
 
             ctx_name = f"modules.{module_name}"
             file_paths.append([ctx_name, f"modules/{module_path}/__init__.py", f"modules/{module_path}"])
-            file_paths.append([ctx_name, f"modules/{module_path}.py", None])
+            rel_path = os.path.dirname(f"modules/{module_path}") if is_submodule else None
+            file_paths.append([ctx_name, f"modules/{module_path}.py", rel_path])
 
         #
         # now see if we have loaded it already
